@@ -30,7 +30,7 @@ knows what the runtime says about it: its `str()` text and the outcome of `int(o
 import OsloModel.Generated.C14
 namespace Oslo.Scalars
 
-inductive ErrKind | valueError | typeError | overflowError
+inductive ErrKind | valueError | typeError | overflowError | invalidOperation
   deriving DecidableEq, Repr
 
 deriving instance DecidableEq for Except
@@ -238,32 +238,93 @@ def isIntLike (val : PyVal) : Bool :=
       | .error _ => false
       | .ok b => a == b
 
-/-- strutils.py:510-537; every failure is a ValueError -/
-def validateInteger (value : PyVal) (minValue maxValue : Option Int) : Except ErrKind Int :=
+/-- A numeric bound (`min_value`, `max_value`, `min_length`, `max_length`) as Python compares it with
+    an int.  Comparisons of an int with an int, bool, float, Decimal or Fraction are exact in Python,
+    so a finite bound is its exact rational value `p / q` (`q > 0`; the harness converts with
+    `fractions.Fraction(bound)`), compared by cross-multiplication. -/
+inductive Bound
+  | fin (p : Int) (q : Nat)   -- int, bool, finite float, finite Decimal, Fraction
+  | posInf | negInf           -- float / Decimal infinities
+  | nan                       -- float nan: every comparison is False
+  | decNan                    -- Decimal NaN: every ordering comparison raises decimal.InvalidOperation
+  deriving DecidableEq, Repr
+
+/-- `n < b` for an int `n` -/
+def intLtBound (n : Int) : Bound → Except ErrKind Bool
+  | .fin p q => .ok (decide (n * q < p))
+  | .posInf => .ok true
+  | .negInf => .ok false
+  | .nan => .ok false
+  | .decNan => .error .invalidOperation
+
+/-- `n > b` for an int `n` -/
+def intGtBound (n : Int) : Bound → Except ErrKind Bool
+  | .fin p q => .ok (decide (n * q > p))
+  | .posInf => .ok false
+  | .negInf => .ok true
+  | .nan => .ok false
+  | .decNan => .error .invalidOperation
+
+/-- `msg = _('… %d') % {…: bound}; raise ValueError(msg)`: `%d` of an infinity raises OverflowError
+    before the ValueError is built (strutils.py:526-534) -/
+def rejectD : Bound → Except ErrKind Int
+  | .posInf => .error .overflowError
+  | .negInf => .error .overflowError
+  | _ => .error .valueError
+
+def checkMax (n : Int) (maxValue : Option Bound) : Except ErrKind Int :=
+  match maxValue with
+  | none => .ok n
+  | some hi =>
+    match intGtBound n hi with                                 -- `value > max_value`
+    | .error e => .error e
+    | .ok true => rejectD hi
+    | .ok false => .ok n
+
+def checkMinMax (n : Int) (minValue maxValue : Option Bound) : Except ErrKind Int :=
+  match minValue with
+  | none => checkMax n maxValue
+  | some lo =>
+    match intLtBound n lo with                                 -- `value < min_value`
+    | .error e => .error e
+    | .ok true => rejectD lo
+    | .ok false => checkMax n maxValue
+
+/-- strutils.py:510-537 -/
+def validateInteger (value : PyVal) (minValue maxValue : Option Bound) : Except ErrKind Int :=
   match pyStr value with                                       -- str(value) inside the try
   | .error _ => .error .valueError
   | .ok text =>
     match pyIntParse 10 text with
     | none => .error .valueError
-    | some n =>
-      if (match minValue with
-          | some lo => decide (n < lo)
-          | none => false) then .error .valueError
-      else if (match maxValue with
-               | some hi => decide (n > hi)
-               | none => false) then .error .valueError
-      else .ok n
+    | some n => checkMinMax n minValue maxValue
 
-/-- strutils.py:476-507; `.ok ()` = returned None -/
-def checkStringLength (value : PyVal) (minLength : Int) (maxLength : Option Int) : Except ErrKind Unit :=
+/-- `bool(bound)` is False -/
+def boundFalsy : Bound → Bool
+  | .fin p _ => p == 0
+  | _ => false
+
+/-- `if max_length and length > max_length: raise ValueError` -/
+def checkMaxLength (length : Int) (maxLength : Option Bound) : Except ErrKind Unit :=
+  match maxLength with
+  | none => .ok ()
+  | some m =>
+    if boundFalsy m then .ok ()
+    else
+      match intGtBound length m with
+      | .error e => .error e
+      | .ok true => .error .valueError
+      | .ok false => .ok ()
+
+/-- strutils.py:476-507; `.ok ()` = returned None.  (The messages use `%s`, which never fails.) -/
+def checkStringLength (value : PyVal) (minLength : Bound) (maxLength : Option Bound) : Except ErrKind Unit :=
   match value with
   | .str s =>
     let length : Int := Int.ofNat s.length
-    if length < minLength then .error .valueError
-    else if (match maxLength with
-             | some m => decide (m ≠ 0 ∧ length > m)           -- `if max_length and length > max_length`
-             | none => false) then .error .valueError
-    else .ok ()
+    match intLtBound length minLength with                     -- `length < min_length`
+    | .error e => .error e
+    | .ok true => .error .valueError
+    | .ok false => checkMaxLength length maxLength
   | _ => .error .typeError
 
 /-! ### is_uuid_like -/
